@@ -64,7 +64,7 @@ __CPROVER_assigns(P1->rnode)
 #endif
 __CPROVER_frees(RM, RM->m_body.ch_buf)
 __CPROVER_ensures(VP_NO_LOCK_HELD)
-#ifndef RP_MIN
+/* ---- control flow, lists, scalar facts (every RR_TRACK level) ---- */
 /* exactly one outcome; an accepted request on an open pipe goes to the first waiting context iff there is one */
 #if REP_RQ == 0
 __CPROVER_ensures(R_O_DISCONN || R_O_DROPPED || R_O_DISCARD || R_O_HELD)
@@ -76,58 +76,64 @@ __CPROVER_ensures(R_O_DELIVERED ==> !RP->closed)
 /* freed exactly when it is neither delivered nor held */
 __CPROVER_ensures(R_FREED == (R_O_DISCONN || R_O_DROPPED || R_O_DISCARD))
 __CPROVER_ensures(R_O_DISCARD ==> RP->closed)
-#ifndef RP_SKIP_B
-/* disconnected ==> GARBAGE (never delivered, freed) */
-__CPROVER_ensures(R_O_DISCONN ==> (g_pipe_close_last == RP->pipe && RP->aio_recv.a_msg == NULL && (ROLDLEN >> 2) < (size_t) RS->ttl.v && RR_NO_END_BELOW(ROLDLEN >> 2)))
-/* dropped ==> TOOMANY (NOT disconnected, receive re-armed) */
-__CPROVER_ensures(R_O_DROPPED ==> (g_pipe_recv_pipe == RP->pipe && g_pipe_recv_aio == &RP->aio_recv && RP->aio_recv.a_msg == NULL && (ROLDLEN >> 2) >= (size_t) RS->ttl.v && RR_NO_END_BELOW(RS->ttl.v)))
-#endif
+/* disconnected ==> fewer than ttl complete words; never delivered, freed */
+__CPROVER_ensures(R_O_DISCONN ==> (g_pipe_close_last == RP->pipe && RP->aio_recv.a_msg == NULL && (ROLDLEN >> 2) < (size_t) RS->ttl.v))
+/* dropped ==> at least ttl complete words; NOT disconnected, receive re-armed */
+__CPROVER_ensures(R_O_DROPPED ==> (g_pipe_recv_pipe == RP->pipe && g_pipe_recv_aio == &RP->aio_recv && RP->aio_recv.a_msg == NULL && (ROLDLEN >> 2) >= (size_t) RS->ttl.v))
 #if REP_RQ == 0
-#ifndef RP_SKIP_C
-/* held ==> ACCEPT: the message stays with the pipe, header = [w_0..w_n], body = rest; pipe queued last; socket readable */
+/* held: the message stays with the pipe, header = n+1 <= ttl words (at most 64 bytes), body shorter by that; pipe queued last; socket readable */
 __CPROVER_ensures(R_O_HELD ==> (RP->aio_recv.a_msg == OLD(RM) && R_HL >= 4 && (R_HL & 3) == 0 && R_HL <= MSG_HDRCAP && (R_HL >> 2) <= (size_t) RS->ttl.v
     && R_HL <= ROLDLEN && OLD(RM)->m_body.ch_len == ROLDLEN - R_HL && OLD(RM)->m_pipe == RP->id && g_pollr))
-#endif
-#ifndef RP_SKIP_D
 #if REP_RP == 0
-#ifndef RP_SKIP_D1
 __CPROVER_ensures(R_O_HELD ==> LIST_IS_ONE(&RS->recvpipes, &RP->rnode))
-#endif
-#ifndef RP_SKIP_D2
 __CPROVER_ensures(!R_O_HELD ==> (LIST_IS_EMPTY(&RS->recvpipes) && NODE_IDLE(&RP->rnode)))
-#endif
 #else
-__CPROVER_ensures(R_O_HELD ? LIST_IS_TWO(&RS->recvpipes, &P1->rnode, &RP->rnode) : (LIST_IS_ONE(&RS->recvpipes, &P1->rnode) && NODE_IDLE(&RP->rnode)))
+__CPROVER_ensures(R_O_HELD ==> LIST_IS_TWO(&RS->recvpipes, &P1->rnode, &RP->rnode))
+__CPROVER_ensures(!R_O_HELD ==> (LIST_IS_ONE(&RS->recvpipes, &P1->rnode) && NODE_IDLE(&RP->rnode)))
 #endif
-#endif
-#ifndef RP_SKIP_E
-__CPROVER_ensures((R_O_HELD && g_k < R_HL) ==> HDR(OLD(RM))[g_k] == g_b)
-__CPROVER_ensures(R_O_HELD ==> (RR_NO_END_BELOW((R_HL >> 2) - 1) && (g_k == R_HL - 4 ==> RR_HB(g_b))))
-__CPROVER_ensures((R_O_HELD && g_k >= R_HL && g_k < ROLDLEN) ==> OLD(RM)->m_body.ch_ptr[g_k - R_HL] == g_b)
-#endif
-#ifndef RP_SKIP_D3
 __CPROVER_ensures(LIST_IS_EMPTY(&RS->recvq))
-#endif
 #else
-/* delivered ==> ACCEPT: exactly the FIRST waiting context gets it, once; that context captures the
- * backtrace [w_0..w_n] and the origin pipe id; the application sees the body behind the request id, no header */
+/* delivered: exactly the FIRST waiting context gets it, once; that context captures n+1 <= ttl words and
+ * the origin pipe id; the application sees no header; the next receive is armed */
 __CPROVER_ensures(R_O_DELIVERED ==> (RP->aio_recv.a_msg == NULL && g_fin_last == OLD(C1->raio) && g_fin_last_rv == 0 && g_fin_last_msg == OLD(RM) && C1->raio == NULL
     && C1->btrace_len >= 4 && (C1->btrace_len & 3) == 0 && C1->btrace_len <= MSG_HDRCAP && (C1->btrace_len >> 2) <= (size_t) RS->ttl.v
     && C1->pipe_id == RP->id && R_HL == 0 && OLD(RM)->m_pipe == RP->id
     && C1->btrace_len <= ROLDLEN && OLD(RM)->m_body.ch_len == ROLDLEN - C1->btrace_len && g_fin_last_count == OLD(RM)->m_body.ch_len
     && g_pipe_recv_pipe == RP->pipe && g_pipe_recv_aio == &RP->aio_recv && NODE_IDLE(&C1->rqnode)))
-__CPROVER_ensures((R_O_DELIVERED && g_k < C1->btrace_len) ==> BT(C1)[g_k] == g_b)
-__CPROVER_ensures(R_O_DELIVERED ==> (RR_NO_END_BELOW((C1->btrace_len >> 2) - 1) && (g_k == C1->btrace_len - 4 ==> RR_HB(g_b))))
-__CPROVER_ensures((R_O_DELIVERED && g_k >= C1->btrace_len && g_k < ROLDLEN) ==> OLD(RM)->m_body.ch_ptr[g_k - C1->btrace_len] == g_b)
 /* the socket becomes writable when its own context got the request and the origin pipe is free */
 __CPROVER_ensures((R_O_DELIVERED && g_c1_master && !RP->busy) ==> g_pollw)
 /* nothing but delivery touches a context or the context queue; delivery removes exactly the first */
 #if REP_RQ == 1
-__CPROVER_ensures(R_O_DELIVERED ? LIST_IS_EMPTY(&RS->recvq) : (LIST_IS_ONE(&RS->recvq, &C1->rqnode) && C1->raio == OLD(C1->raio) && C1->btrace_len == OLD(C1->btrace_len) && C1->pipe_id == OLD(C1->pipe_id)))
+__CPROVER_ensures(R_O_DELIVERED ==> LIST_IS_EMPTY(&RS->recvq))
+__CPROVER_ensures(!R_O_DELIVERED ==> (LIST_IS_ONE(&RS->recvq, &C1->rqnode) && C1->raio == OLD(C1->raio) && C1->btrace_len == OLD(C1->btrace_len) && C1->pipe_id == OLD(C1->pipe_id)))
 #else
-__CPROVER_ensures(R_O_DELIVERED ? LIST_IS_ONE(&RS->recvq, &C2->rqnode) : (LIST_IS_TWO(&RS->recvq, &C1->rqnode, &C2->rqnode) && C1->raio == OLD(C1->raio) && C1->btrace_len == OLD(C1->btrace_len) && C1->pipe_id == OLD(C1->pipe_id)))
+__CPROVER_ensures(R_O_DELIVERED ==> LIST_IS_ONE(&RS->recvq, &C2->rqnode))
+__CPROVER_ensures(!R_O_DELIVERED ==> (LIST_IS_TWO(&RS->recvq, &C1->rqnode, &C2->rqnode) && C1->raio == OLD(C1->raio) && C1->btrace_len == OLD(C1->btrace_len) && C1->pipe_id == OLD(C1->pipe_id)))
 #endif
 __CPROVER_ensures(LIST_IS_EMPTY(&RS->recvpipes) && NODE_IDLE(&RP->rnode))
+#endif
+#if RR_TRACK >= 1
+/* ---- class facts and the rest of the body (ghost byte: g_b = old body byte g_k, for EVERY g_k) ---- */
+/* disconnected ==> GARBAGE: none of the complete words is a request id */
+__CPROVER_ensures(R_O_DISCONN ==> RR_NO_END_BELOW(ROLDLEN >> 2))
+/* dropped ==> TOOMANY: none of the first ttl words is a request id */
+__CPROVER_ensures(R_O_DROPPED ==> RR_NO_END_BELOW(RS->ttl.v))
+#if REP_RQ == 0
+/* held ==> ACCEPT: the last moved word is the first with the high bit; the rest of the body is unchanged */
+__CPROVER_ensures(R_O_HELD ==> (RR_NO_END_BELOW((R_HL >> 2) - 1) && (g_k == R_HL - 4 ==> RR_HB(g_b))))
+__CPROVER_ensures((R_O_HELD && g_k >= R_HL && g_k < ROLDLEN) ==> OLD(RM)->m_body.ch_ptr[g_k - R_HL] == g_b)
+#else
+/* delivered ==> ACCEPT, the application sees the body behind the request id unchanged */
+__CPROVER_ensures(R_O_DELIVERED ==> (RR_NO_END_BELOW((C1->btrace_len >> 2) - 1) && (g_k == C1->btrace_len - 4 ==> RR_HB(g_b))))
+__CPROVER_ensures((R_O_DELIVERED && g_k >= C1->btrace_len && g_k < ROLDLEN) ==> OLD(RM)->m_body.ch_ptr[g_k - C1->btrace_len] == g_b)
+#endif
+#endif
+#if RR_TRACK == 2
+/* ---- content of the backtrace: the moved words, byte for byte, in order ---- */
+#if REP_RQ == 0
+__CPROVER_ensures((R_O_HELD && g_k < R_HL) ==> HDR(OLD(RM))[g_k] == g_b)
+#else
+__CPROVER_ensures((R_O_DELIVERED && g_k < C1->btrace_len) ==> BT(C1)[g_k] == g_b)
 #endif
 #endif
 ;
